@@ -7,7 +7,9 @@ use serde_json::json;
 use std::sync::atomic::{AtomicU64, Ordering};
 
 fn values() -> Vec<Vec<u8>> {
-    vec![vec![], b"a".to_vec(), "é".as_bytes().to_vec(), vec![0xff], vec![0xc3], vec![0x61, 0x80]]
+    // valid: empty, ASCII, 2-byte, U+FFFD (the replacement character itself is valid UTF-8), space-padded;
+    // invalid: lone ff, truncated c3, valid byte then stray continuation
+    vec![vec![], b"a".to_vec(), "é".as_bytes().to_vec(), "\u{FFFD}".as_bytes().to_vec(), b" a ".to_vec(), vec![0xff], vec![0xc3], vec![0x61, 0x80]]
 }
 
 fn value_lists(max: usize) -> Vec<Vec<Vec<u8>>> {
@@ -120,14 +122,14 @@ pub fn run(tier: Tier) -> i32 {
     let rep = Reporter::new("C15", tier);
     let evals = AtomicU64::new(0);
     let mixed = AtomicU64::new(0);
-    let lists = value_lists(3); // 1 + 6 + 36 + 216 = 259 value lists
+    let lists = value_lists(3); // 1 + 8 + 64 + 512 = 585 value lists
     let names = ["cn", "jpegPhoto", "objectClass"];
     let nl = lists.len() as u64;
     // 1 attribute: every list; 2 attributes: every pair; 3 attributes: every triple from a stride subset
-    let sub: Vec<usize> = (0..lists.len()).step_by(tier.pick(9, 3)).collect();
+    let sub: Vec<usize> = (0..lists.len()).step_by(tier.pick(23, 5)).collect();
     let ns = sub.len() as u64;
     let forms = [LenForm::Minimal, LenForm::Long(1), LenForm::Long(2), LenForm::Long(4)];
-    for dn in ["", "cn=é"] {
+    for dn in ["", "cn=é", "o=Acme\\ ", " cn=lead,o=x ", "cn=\u{FFFD}"] {
         judge(&rep, dn, &[], LenForm::Minimal, &evals, &mixed);
         par_for(nl, |i| {
             for f in forms {
